@@ -150,6 +150,22 @@ PROPS = {
         "assumptions": ["the per-interval drift allowance is the simulated clock's Drift(interval); caps are impact x that value",
                         "float tolerance 2 ns + 1e-12 relative on bounds, 3 ns on exact values; exact value only checked when every source answered before the deadline and |values| <= 2^62"],
     },
+    "C13": {
+        "level": "exploration",
+        "budget": {"quick": 80, "thorough": 900},
+        "runs": {"quick": 4000, "thorough": 400000},
+        "rule": "one run = 3..14 actions against 2 real runSCIONServer listeners (service port) plus the server's end-host-port listener, behind a recording relay router: measurements by the real SCIONClient "
+                "(packet authentication on/off on either side independently, DSCP values 0..63 on either side, basic/interleaved) over an empty path or a SCION path of 1..3 segments and 2..19 hops, optionally received through the real "
+                "end-host forwarder on port 30041; SCMP echo and traceroute requests; packets for another L4 port delivered to the service port, to the end-host port, and addressed to the end-host port itself; "
+                "in 2/3 of the runs the router flips bits in transit (MAC, SPI, algorithm, payload, address header, traffic class, anywhere) in 10..60 % of the packets; "
+                "non-trivial = at least two replies judged at the router; distinct = distinct event-log hash",
+        "required_probes": ["ntp-reply-checked", "authenticated-exchange", "client-verified-response", "scmp-reply-checked", "not-forwarded-from-service-port", "forwarded-from-endhost-port", "not-forwarded-to-endhost-port", "measurement-failed"],
+        "components": {"real": ["core/server runSCIONServer (NTP, SCMP, forwarding branches)", "core/client SCIONClient, MeasureClockOffsetSCION", "net/scion auth.go, Fetcher, DeriveHostHostKey", "scionproto slayers/spao/drkey (library)"],
+                       "stub": dict(STUBS_COMMON, **{"SCION daemon": "mock daemon.Connector serving DRKeys derived with the real generic.Deriver", "border routers": "scripted relay that forwards, records and tampers", "kernel UDP": "simnet"}),
+                       "not_run": ["IPv6 hosts, one-hop and EPIC paths (IPv4 and empty/SCION paths only)"]},
+        "assumptions": ["the oracle recomputes the CMAC with its own call of spao.ComputeAuthCMAC over the packet as received and the key it derives itself",
+                        "path reversal is checked against the harness's own reversal of the encoded path"],
+    },
     "C16": {
         "level": "exploration",
         "budget": {"quick": 40, "thorough": 600},
@@ -214,7 +230,7 @@ NOT_APPLICABLE = {
 
 # Properties that the design claims but whose world is not built yet (kept current).
 NOT_YET = {p: "designed (DESIGN.md section 3) but the simulated world is not built yet; not claimed until its check runs"
-           for p in ["C08", "C13", "C14", "C15"]}
+           for p in ["C08", "C14", "C15"]}
 
 PROPS["C01"].update(
     level_text="seeded exploration of multi-round histories of the real synchronization loop with scripted sources (values over the whole int64 range, failures, late answers, sources that never answer) and admissible/inadmissible configurations; per-round invariants: exactly one correction, magnitude bounds from the statement, exact value when every source answered in time, correction no later than the round's timeout; start-up refusal of inadmissible settings. Evidence, not proof.",
@@ -264,6 +280,10 @@ PROPS["C12"].update(
     level_text="seeded exploration of call histories and statement-level interleavings of the real Provider under a virtual clock over weeks of virtual time; per-call invariants from the statement plus a porcupine linearizability check against a permissive model. Evidence, not proof.",
     level_note="trusts testing/synctest's fake clock, the simulator-aware mutex substituted for sync.Mutex, and that interleavings finer than statements do not matter; constants (24h, 3d, 2d) are taken from the property statement",
     technique="deterministic simulation: seeded scheduler + virtual clock, per-operation invariants, porcupine linearizability on recorded histories")
+PROPS["C13"].update(
+    level_text="seeded exploration with in-flight tampering at a relay router: a request (response) carrying the time service's authenticator is served (accepted) only if an independent recomputation of its CMAC matches, the reply to a verified request verifies, every reply goes to the previous hop over the independently reversed path with addresses and ports exchanged, SCMP payloads are echoed intact, and forwarding happens only from the end-host port and never back to it. Evidence, not proof.",
+    level_note="IPv4 hosts, empty and standard SCION paths; DRKeys from a mock daemon; border-router MAC checks are not modelled",
+    technique="deterministic simulation with fault injection: tampering relay router, independent MAC recomputation and reply-addressing oracle")
 PROPS["C16"].update(
     level_text="seeded exploration of completion times around the deadline, success/error outcomes, release orders, select choices between a pending result and cancellation (the select in collectMeasurements is rewritten into a scheduler decision), slow-collector faults, overlapping and follow-up collections; oracles on return time, result prefix, refusal of overlap and goroutine quiescence. Evidence, not proof.",
     level_note="trusts the simulator's substitution of the receive-only select by simsync.Select (same semantics outside the simulator) and of context deadlines by scheduler events; goroutine leaks are judged from stack dumps of the run's bubble",
